@@ -688,11 +688,14 @@ func c11SignOCI(c *Ctx, W *ssa.Function) {
 	}
 	c.Check(D.prims() >= 2 && !hit, "gate/digest-pinning", "effect-site gate (disjunctive): Signer.Sign is reachable only if the very string that was resolved equals the resolved digest or is not a digest at all", w.InstrPos(sign),
 		fmt.Sprintf("a digest reference (%s) resolving to another digest reaches the signer", desc(resolve.Call.Args[1])))
+	// the gates behind Sign: the push only after Sign and the generator succeeded, success only after the push succeeded
+	c11SuccessGates(c, W, sign, gen, push)
 	if merge != nil {
 		c11Merge(c, staticCallee(merge))
 	}
 	if G != nil {
 		c11Annotations(c, G)
+		c11FallibleSources(c, G, c11AnnotationKeys(w)...)
 	}
 }
 
